@@ -140,6 +140,10 @@ pub assume_specification<'b, T: ?Sized, U: ?Sized, F: FnOnce(&mut T) -> &mut U> 
     requires forall|x: &mut T| #![trigger f.requires((x,))] &*x == refmut_val(&orig) ==> f.requires((x,)),
     ensures exists|x: &mut T, o: &mut U| &*x == refmut_val(&orig) && #[trigger] f.ensures((x,), o) && &*o == refmut_val(&r);
 
+// DerefMut of the guard: the place it exposes holds the guarded value (what the caller then writes there is interior mutation)
+pub assume_specification<'b, 'c, T: ?Sized> [<RefMut<'b, T> as std::ops::DerefMut>::deref_mut] (c: &'c mut RefMut<'b, T>) -> (r: &'c mut T)
+    ensures &*r == refmut_val(old(c));
+
 // ---- MaybeUninit
 pub uninterp spec fn mu_val<T>(m: MaybeUninit<T>) -> Option<T>;
 
